@@ -128,7 +128,11 @@ class InDocument(Stream):
             for t in itertools.product(ALPHA, repeat=n):
                 s = "".join(t)
                 for q in STYLES:
-                    yield [q, s, (len(s) + n) % 3]
+                    if n <= 2:
+                        for t in range(len(TAILS)):
+                            yield [q, s, t]
+                    else:
+                        yield [q, s, (len(s) + sum(map(ord, s))) % 3]
         nrand = 2000 if tier == "quick" else 30000
         for i in range(nrand):
             n = rng.randint(4, 80)
@@ -220,6 +224,37 @@ class InDocument(Stream):
                 yield [q, s[:i] + a + s[i:], t]
 
 
+class InDocumentParse(InDocument):
+    """Same cases; correspondence at parser level: freephil.parse("a = " + quoted + tail) against the
+    extracted parser model (trees with line numbers)."""
+    name = "in_document_parse"
+    cluster = "Parse"
+
+    def impl(self, case):
+        import parse_common as pc
+        o, _ = pc.impl_parse(self.fp, "a = " + self.doc(case))
+        full = InDocument.impl(self, case)
+        return [o if o[0] != "ok" else ["ok", [vlib_strip(t) for t in o[1]]], full[2]]
+
+    def requests(self, case, impl_obs):
+        return [("parse", [[], "a = " + self.doc(case)])]
+
+    def model(self, case, replies, impl_obs):
+        import parse_common as pc
+        m = pc.model_parse_obs(replies[0])
+        if m == "UNMODELLED":
+            return m
+        return [m if m[0] != "ok" else ["ok", [vlib_strip(t) for t in m[1]]], impl_obs[1]]
+
+    def prop(self, case, o):
+        return InDocument.prop(self, case, [None, None, o[1]])
+
+
+def vlib_strip(t):
+    import vlib
+    return vlib.strip_tree(t, keep_line=True)
+
+
 class CharTable(Stream):
     """isspace / lower for all 256 code points (preamble of every tokenizer-based check)."""
     name = "chartable"
@@ -239,13 +274,14 @@ class CharTable(Stream):
 
 
 SPEC = {
-    "clusters": ["Tok"],
-    "streams": [CharTable, ValueLiteral, InDocument],
+    "clusters": ["Tok", "Parse"],
+    "streams": [CharTable, ValueLiteral, InDocument, InDocumentParse],
     "rule": "exhaustive strings up to the length bound over the 12-class alphabet of the property x 4 quote styles "
             "(value literal; in-document with 5 tails), plus seeded random strings to length 300 over the class alphabet "
             "and over all 256 code points; distinct = distinct (style, string[, tail]); non-trivial = non-empty string",
     "trusted": ["Modelled: tokenizer.escape_python_str, quote_python_str, word.__str__, word_iterator.__next__ (all branches), "
-                "tokenize_value_literal; the parse-level clause (definition b intact, line of b) is checked on the implementation by the oracle "
+                "tokenize_value_literal, and the parser (collect_assigned_words / collect_objects) for the in-document stream; the parse-level clause "
+                "(definition b intact, line of b) is checked on the implementation by the oracle and by correspondence with the parser model, "
                 "and proved at tokenizer level (C03_in_context: rest and line counter after the quoted word)"],
     "modelled": "Python tokenizer modelled by hand in coq/theories/Model/Tokenizer.v; freephil.parse is exercised by the oracle only in this check",
     "assumptions": ["text restricted to code points < 256"],
